@@ -1,11 +1,13 @@
 PROP = {
     "id": "C42",
     "theorem_modules": ["Verif.Properties.C42"],
-    "min_theorems": 7,
+    "min_theorems": 9,
     "required_theorems": [
         "Verif.Properties.C42.tags_pinned",
         "Verif.Properties.C42.sort_unique",
         "Verif.Properties.C42.canonical_entitlements",
+        "Verif.Properties.C42.canonical_dictionary",
+        "Verif.Properties.C42.canonical_intersection",
         "Verif.Properties.C42.canonical_dictionary_partial",
         "Verif.Properties.C42.canonical_keyed_partial",
     ],
